@@ -439,6 +439,8 @@ def threaded_serving_run(ctx, seed, policy, nthreads, nreq, p_switch, client_bg=
 
 
 def run(ctx):
+    from rv import suiterun
+    suiterun.for_check(ctx, PROPERTY, ['requests_handled', 'results_completed'])
     rng = ctx.rng
     for i in range(ctx.budget(400, 60000)):
         threaded_serving_run(ctx, (ctx.seed, ctx.shard[0], i), "random" if i % 3 else "pct", rng.choice([2, 3]) if i % 4 else 1, rng.choice([2, 3, 5]),
